@@ -6,7 +6,7 @@ CONSTANTS
   TUs = {FALSE}
   AUs = {TRUE, FALSE}
   ICFIs = {FALSE}
-  MSs = {{}, {"a", "b"}}
+  MSs = {{"a", "b"}}
   Emit = TRUE
 INVARIANT Inv
 CHECK_DEADLOCK FALSE
